@@ -468,6 +468,8 @@ def symbolic_comprehension(eng, n, fr, kind, first):
         hook = getattr(eng, "comprehension_hook", None)
         if hook is not None:
             return hook(eng, n, fr, kind, first)
+        if len(gens) == 1 and kind in ("list", "gen"):
+            return filtered_comprehension(eng, n, fr, kind, first)
         raise Unsupported("filtered / nested comprehension over a symbolic sequence")
     length, getter = as_sequence(eng, first)
     bulk = _bulk_dict_pop(eng, n, fr, kind, length, getter)
@@ -538,6 +540,103 @@ def symbolic_comprehension(eng, n, fr, kind, first):
     if kind == "list":
         return p
     raise Unsupported("set comprehension over a symbolic sequence")
+
+
+FILTER_MODEL = ("comprehension-model: [e(x) for x in S if c(x)] over a sequence of unknown length keeps exactly the elements whose condition holds, in "
+                "order (ghost symbols: the number N of kept elements, the position K(m) of the m-th kept one, the rank R(i) of a kept position; if "
+                "every condition holds nothing is dropped); condition and element are evaluated once for an arbitrary position and must be pure")
+
+
+def filtered_comprehension(eng, n, fr, kind, first):
+    """[elt for x in S if c1 if c2 ...] (one generator) over a symbolic-length S.  Condition and element are evaluated once, for an
+    arbitrary position i (pure: no fork, no side effect); the result is a fresh list described by an order-preserving selection."""
+    from .models import as_sequence
+    from .values import Opaque as _Op
+
+    g = n.generators[0]
+    length, getter = as_sequence(eng, first)
+    nz = length.z if isinstance(length, Sym) else zint(length)
+    i = z3.Int(fresh_name("fi"))
+    in_range = z3.And(i >= 0, i < nz)
+    sub = Frame(parent=fr, globs=fr.globs, func=fr.func)
+    saved = list(eng.pc)
+    eng.pc.append(in_range)
+    guards = 1  # number of guard hypotheses pushed on the path condition (range, then every condition that is not decided)
+    cond, vv = True, None
+    eng.pure_mode = getattr(eng, "pure_mode", 0) + 1
+    try:
+        eng.assign(g.target, getter(Sym(i, "int")), sub)
+        facts = []  # (hypotheses added while evaluating, number of guards in force)
+        for c in g.ifs:  # `if a if b`: b is evaluated only where a holds
+            k0 = len(eng.pc)
+            t = eng.truth(eng.ev(c, sub))
+            facts.append((eng.pc[k0:], cond))
+            del eng.pc[k0:]
+            cond = eng.and_(cond, t)
+            if cond is False:
+                break
+            if isinstance(t, Sym):
+                eng.pc.append(t.z)
+        if cond is not False:
+            k0 = len(eng.pc)
+            vv = eng.ev(n.elt, sub)
+            facts.append((eng.pc[k0:], cond))
+    finally:
+        eng.pure_mode -= 1
+        eng.pc = saved
+    for hs, gd in facts:  # facts established while evaluating (proved bounds ...) hold at every position where that part is evaluated
+        gz = in_range if gd is True else z3.And(in_range, to_z3(gd, "bool"))
+        for h in hs:
+            eng.pc.append(z3.ForAll([i], z3.Implies(gz, h)))
+    if isinstance(first, Iter):
+        first.consumed = True
+    if cond is False:
+        return Iter(PList([])) if kind == "gen" else PList([])
+    vals = vv if isinstance(vv, tuple) else (vv,)
+    kinds, terms, proto = [], [], None
+    for x in vals:
+        if x is None:
+            kinds.append("oref"), terms.append(z3.IntVal(0))
+        elif isinstance(x, _Op):
+            kinds.append("ref"), terms.append(x.z)
+            proto = x.proto if not isinstance(vv, tuple) else None
+        elif kind_of(x) is not None:
+            kinds.append(kind_of(x)), terms.append(to_z3(x, kind_of(x)))
+        else:
+            raise Unsupported(f"filtered comprehension element of type {type(x).__name__} over a symbolic sequence")
+    p = PList()
+    p.items, p.kinds, p.tup, p.proto = None, kinds, isinstance(vv, tuple), proto
+    if cond is True:  # nothing is filtered: the pointwise image
+        p.n = z3.simplify(nz)
+        p.cols = [z3.Lambda([i], t) for t in terms]
+        return Iter(p) if kind == "gen" else p
+    eng.assumptions.add(FILTER_MODEL)
+    tag = fresh_name("flt")
+    N = z3.Int(tag + "_N")
+    K = z3.Function(tag + "_K", z3.IntSort(), z3.IntSort())
+    R = z3.Function(tag + "_R", z3.IntSort(), z3.IntSort())
+    m, m2 = z3.Int(tag + "_m"), z3.Int(tag + "_m2")
+    holds = lambda t: z3.substitute(cond.z, (i, t))
+    for ax in filter_axioms(nz, holds, N, K, R, i, m, m2):
+        eng.assume(ax)
+    p.n = N
+    p.cols = [z3.Lambda([m], z3.substitute(t, (i, K(m)))) for t in terms]
+    eng.ghost.setdefault("filters", []).append(dict(N=N, K=K, R=R, n=nz, cond=holds, out=p))
+    return Iter(p) if kind == "gen" else p
+
+
+def filter_axioms(nz, holds, N, K, R, i, m, m2):
+    """the order-preserving selection of the positions 0 <= i < nz at which holds(i): N of them, K(m) the m-th, R(i) the rank of a kept one
+    (every formula is a property of CPython's filtering: tools/xcheck_strmodel.py evaluates them on concrete lists)"""
+    in_range = z3.And(i >= 0, i < nz)
+    return [
+        z3.And(N >= 0, N <= nz),
+        z3.ForAll([m], z3.Implies(z3.And(m >= 0, m < N), z3.And(K(m) >= m, K(m) < nz, holds(K(m)), R(K(m)) == m)), patterns=[K(m)]),
+        z3.ForAll([m, m2], z3.Implies(z3.And(m >= 0, m < m2, m2 < N), K(m) < K(m2)), patterns=[z3.MultiPattern(K(m), K(m2))]),
+        z3.ForAll([i], z3.Implies(z3.And(in_range, holds(i)), z3.And(R(i) >= 0, R(i) < N, R(i) <= i, K(R(i)) == i)), patterns=[R(i)]),
+        z3.Implies(z3.ForAll([i], z3.Implies(in_range, holds(i))),
+                   z3.And(N == nz, z3.ForAll([m], z3.Implies(z3.And(m >= 0, m < N), K(m) == m), patterns=[K(m)]))),
+    ]
 
 
 def _bulk_dict_pop(eng, n, fr, kind, length, getter):
